@@ -1,0 +1,61 @@
+//go:build verif
+
+package filterstorage
+
+// Contracts for govc (see /verif/DESIGN.md).  Comment-only file.
+
+//@ import filter github.com/AdguardTeam/AdGuardDNS/internal/filter
+//@ import rulelist github.com/AdguardTeam/AdGuardDNS/internal/filter/internal/rulelist
+//@ import agdtime github.com/AdguardTeam/AdGuardDNS/internal/agdtime
+//@ import context context
+
+//@ immutable Default.baseLogger, Default.logger, Default.ruleListsMu, Default.ruleListIdxRefr, Default.cacheManager, Default.clock, Default.errColl, Default.metrics, Default.cacheDir
+
+//@ interface filter.Metrics method SetFilterStatus
+//@   modifies nothing
+//@ interface agdtime.Clock method Now
+//@   modifies nothing
+//@ interface context.Context method Err
+//@   modifies nothing
+
+// ---------------------------------------------------------------------------
+// C13: a list whose update fails keeps its previous complete content; every
+// other list gets its previous or its new complete content; the valid entries
+// of a partially invalid index are still applied.
+
+//@ pred ST(s *Default) = s != nil && s.logger != nil && s.baseLogger != nil && s.ruleListsMu != nil && ref(s.metrics) != 0 && ref(s.clock) != 0
+
+// newOrPrev: the list installed under id is either a list created in this round
+// whose refresh succeeded, or the list that served id before.
+//@ pred newOrPrev(m map[filter.ID]*rulelist.Refreshable, prev map[filter.ID]*rulelist.Refreshable, id filter.ID) = has(m, id) ==>
+//@        (m[id] != nil && fresh(m[id]) && m[id].filter != nil && m[id].filter.engine != nil) || (has(prev, id) && m[id] == prev[id])
+
+//@ func (*Default).setPrevRuleList
+//@   property C13
+//@   requires s != nil && s.ruleListsMu != nil && newRuleLists != nil
+//@   modifies mapof(newRuleLists)
+//@   ensures previous-list-kept-when-there-is-one: has(newRuleLists, id) == (old(has(newRuleLists, id)) || has(s.ruleLists, id)) &&
+//@             (has(s.ruleLists, id) ==> newRuleLists[id] == s.ruleLists[id])
+//@   ensures forall k filter.ID :: k != id ==> has(newRuleLists, k) == old(has(newRuleLists, k)) && newRuleLists[k] == old(newRuleLists[k])
+
+//@ func (*Default).reportRuleListError
+//@   modifies nothing
+
+//@ func (*Default).addRuleList
+//@   property C13
+//@   requires ST(s) && newRuleLists != nil && fl != nil && newRuleLists != s.ruleLists
+//@   modifies mapof(newRuleLists), rulelist.filter.engine, replaceCalls, replaces, cleanups, sbLen, copyFailed, lastRefreshText, storageText, engineText, cacheClears, rlRefreshOK
+//@   ensures other-lists-untouched: forall k filter.ID :: k != fl.id ==> has(newRuleLists, k) == old(has(newRuleLists, k)) && newRuleLists[k] == old(newRuleLists[k])
+//@   ensures duplicate-id-ignored: old(has(newRuleLists, fl.id)) ==> has(newRuleLists, fl.id) && newRuleLists[fl.id] == old(newRuleLists[fl.id])
+//@   ensures new-only-after-a-successful-refresh-else-previous: !old(has(newRuleLists, fl.id)) ==>
+//@             (has(newRuleLists, fl.id) && newRuleLists[fl.id] != nil && fresh(newRuleLists[fl.id]) && rlRefreshOK &&
+//@                newRuleLists[fl.id].filter != nil && newRuleLists[fl.id].filter.engine != nil) ||
+//@             (has(s.ruleLists, fl.id) && has(newRuleLists, fl.id) && newRuleLists[fl.id] == s.ruleLists[fl.id]) ||
+//@             (!has(s.ruleLists, fl.id) && !has(newRuleLists, fl.id))
+//@   ensures prev-map-untouched: forall k filter.ID :: has(s.ruleLists, k) == old(has(s.ruleLists, k)) && s.ruleLists[k] == old(s.ruleLists[k])
+
+//@ func (*Default).resetRuleLists
+//@   property C13
+//@   requires s != nil && s.ruleListsMu != nil
+//@   modifies s.ruleLists
+//@   ensures s.ruleLists == rls
